@@ -96,6 +96,24 @@ func ParseObserve(text string) (obs any, src *formula.SourceCode) {
 	return proj.T{"OK", proj.Tree(src.Expression)}, src
 }
 
+// ParseObserveBytes is ParseObserve on the caller's own byte buffer (no copy is made).
+func ParseObserveBytes(text []byte) (obs any, src *formula.SourceCode) {
+	defer func() {
+		if r := recover(); r != nil {
+			obs = proj.T{"PANIC", fmt.Sprint(r)}
+		}
+	}()
+	defer HangGuard(fmt.Sprintf("parsing %q", text))()
+	src, err := formula.ParseSourceCode(text)
+	if err != nil {
+		return proj.T{"REJECT"}, src
+	}
+	if src == nil {
+		return proj.T{"BROKEN", "nil source without error"}, nil
+	}
+	return proj.T{"OK", proj.Tree(src.Expression)}, src
+}
+
 func (grammarFam) Check(vars map[string]any) Result {
 	s, ok := vars["s"].([]any)
 	if !ok {
